@@ -39,6 +39,7 @@ CONSTANTS
   TrackCut,       \* feed ring pushes / drains to the ghost (needed for the cut signature)
   FixRecv, FixFifo, FixCancelDefault, FixEmptyToken, FixStackFull, FixForceStart, FixReentrant, FixInSpan, FixExitOrder,
   AdapterKinds, InnerKinds, MaxFuts, MaxPolls, DistinctOps,
+  Mut,            \* "none", or the name of a deliberately wrong variant of one action (see Mutants below)
   None
 
 Zero == 0
@@ -96,13 +97,27 @@ Init ==
 
 ----------------------------------------------------------------------------
 (* tokens and span lines (span.rs, local_span_line.rs, span_queue.rs) *)
+(* Mutants.  Each name switches one action to a plausible wrong variant; the checks run the model  *)
+(* with it and require TLC to find a violation of the property named - the standing evidence that  *)
+(* the property's clauses can fail on this model (the model-level twin of the seeded code changes). *)
+(*   skip-second-copy   C02  a multi-parent set is handed to a collector once, even when two of    *)
+(*                           its parents are in that collector's trace                             *)
+(*   mark-all-sampled   C05  the local parent's token marks every item sampled if any is           *)
+(*   drain-danglings    C06  attachments parked for a span that is still open are dropped at the   *)
+(*                           end of the cycle (default configuration)                              *)
+(*   no-restore         C10  finishing a local span leaves the parent cursor on it                 *)
+(*   ctx-last           C11  SpanContext::from_span reads the last token item, not the first       *)
+(*   root-ignores-ready C16  Span::root does not ask whether a reporter is installed               *)
+(*   push-once          C17  a captured set can be pushed to one parent only; later pushes are lost *)
+M_(x) == Mut = x
 Sampled(tok) == SelectSeq(tok, LAMBDA it : it.smp)
 AnySmp(tok) == \E i \in DOMAIN tok : tok[i].smp
 Issue(h) == [i \in DOMAIN spans[h].tok |-> [spans[h].tok[i] EXCEPT !.par = h]]
 Top(t) == stack[t][Len(stack[t])]
 SetTop(t, l) == [stack EXCEPT ![t][Len(stack[t])] = l]
 \* SpanLine::current_collect_token
-CurTok(l) == [i \in DOMAIN l.tok |-> [l.tok[i] EXCEPT !.par = IF l.nxt # 0 THEN l.nxt ELSE @]]
+CurTok(l) == [i \in DOMAIN l.tok |-> [l.tok[i] EXCEPT !.par = IF l.nxt # 0 THEN l.nxt ELSE @,
+                                                     !.smp = IF M_("mark-all-sampled") THEN \E j \in DOMAIN l.tok : l.tok[j].smp ELSE @]]
 LiveSpan(h) == h \in DOMAIN spans /\ spans[h].st = "live"
 Usable(h) == h \in DOMAIN spans /\ spans[h].st \in {"live", "noop"}
 KV(n) == <<n, n>>
@@ -184,7 +199,7 @@ Rt(t, op) == [ev |-> "ret", t |-> t, op |-> op, refused |-> FALSE, dropped |-> F
 
 Root(t, tr, smp) ==
   LET h == New(t)
-      rec == Enabled /\ Ready
+      rec == Enabled /\ (Ready \/ M_("root-ignores-ready"))
       cid == IF smp THEN h ELSE NS          \* collect ids only need to be unique: the root's name serves
       start == [k |-> "start", c |-> cid] IN
   /\ NRoots < MaxRoots /\ NSpans < MaxSpans
@@ -345,7 +360,8 @@ LExit(t) ==
   LET x == TopH(t) IN
   /\ hs[t] # <<>> /\ x.k = "l"
   /\ stack' = IF x.live
-              THEN LET j == CHOOSE j \in DOMAIN Top(t).q : Top(t).q[j].id = x.n IN SetTop(t, [Top(t) EXCEPT !.nxt = Top(t).q[j].par])
+              THEN LET j == CHOOSE j \in DOMAIN Top(t).q : Top(t).q[j].id = x.n IN
+                   IF M_("no-restore") THEN stack ELSE SetTop(t, [Top(t) EXCEPT !.nxt = Top(t).q[j].par])
               ELSE stack
   /\ hs' = [hs EXCEPT ![t] = Front(@)]
   /\ Begin(t, <<>>, Ev(t, "lexit") @@ [l |-> x.n], Rt(t, "lexit"))
@@ -414,7 +430,8 @@ SWith(t, h) ==
   /\ UNCHANGED <<lsets, futs, pushed, stack, hs>>
 
 PushC(t, h, ls) ==
-  LET tok == IF spans[h].st = "live" THEN Sampled(Issue(h)) ELSE <<>>
+  LET tok0 == IF spans[h].st = "live" THEN Sampled(Issue(h)) ELSE <<>>
+      tok == IF M_("push-once") /\ \E x \in pushed : x[2] = ls /\ x[1] > 0 THEN <<>> ELSE tok0
       cmds == IF lsets[ls] # <<>> /\ tok # <<>> THEN <<Send(Submit(lsets[ls], tok))>> ELSE <<>> IN
   /\ <<h, ls>> \notin pushed
   /\ pushed' = pushed \cup {<<h, ls>>}
@@ -448,7 +465,8 @@ CtxL(t) ==
 
 CtxS(t, h) ==
   LET tok == IF spans[h].st = "live" THEN Issue(h) ELSE <<>>
-      ctx == IF tok # <<>> THEN [some |-> TRUE, tr |-> tok[1].tr, id |-> h, smp |-> tok[1].smp] ELSE [some |-> FALSE] IN
+      it == IF tok = <<>> THEN None ELSE IF M_("ctx-last") THEN tok[Len(tok)] ELSE tok[1]
+      ctx == IF tok # <<>> THEN [some |-> TRUE, tr |-> it.tr, id |-> h, smp |-> it.smp] ELSE [some |-> FALSE] IN
   /\ Begin(t, <<>>, Ev(t, "ctxs") @@ [h |-> h], Rt(t, "ctxs") @@ [h |-> h, ctx |-> ctx])
   /\ UNCHANGED <<spans, lsets, futs, pushed, stack, hs, nid, natt>>
 
@@ -600,7 +618,8 @@ ApplySubmits(act, subs, stale) ==
              IF i > Len(s.tok) THEN <<ac, st>>
              ELSE LET it == s.tok[i]
                       coll == [q |-> s.q, tr |-> it.tr, par |-> it.par]
-                  IN IF it.cid \in DOMAIN ac
+                  IN IF M_("skip-second-copy") /\ \E j \in 1..(i-1) : s.tok[j].cid = it.cid THEN items(ac, st, i + 1)
+                     ELSE IF it.cid \in DOMAIN ac
                      THEN items([ac EXCEPT ![it.cid].colls = Append(@, coll)], st, i + 1)
                      ELSE IF ~Cancelable THEN items(ac, Append(st, coll), i + 1)
                           ELSE items(ac, st, i + 1)
@@ -623,7 +642,7 @@ RECURSIVE FlushActive(_, _, _)
 FlushActive(act, cids, out) ==     \* default configuration: every active collector gives up what it has
   IF cids = <<>> THEN <<act, out>>
   ELSE LET c == Head(cids) p == Post(act[c].colls, act[c].dang) IN
-       FlushActive([act EXCEPT ![c] = [colls |-> <<>>, dang |-> p[2]]], Tail(cids), out \o p[1])
+       FlushActive([act EXCEPT ![c] = [colls |-> <<>>, dang |-> IF M_("drain-danglings") THEN <<>> ELSE p[2]]], Tail(cids), out \o p[1])
 
 \* <<active', records>>
 Process(b) ==
@@ -837,7 +856,7 @@ QuietCycle ==
          g2 == IF TrackCut THEN A!AbsRun(g1, [i \in DOMAIN reg |-> [ev |-> "drain", t |-> reg[i]]], 1) ELSE g1
          g3 == A!AbsStep(A!AbsStep(A!AbsStep(g2, [ev |-> "process"]), [ev |-> "report", recs |-> pr[2]]), [ev |-> "cycend"])
          g4 == IF quiet = 1
-               THEN A!AbsStep(g3, [ev |-> "stats", active |-> SetToSortSeq(DOMAIN pr[1], <),
+               THEN A!AbsStep(A!AbsStep(g3, [ev |-> "idle"]), [ev |-> "stats", active |-> SetToSortSeq(DOMAIN pr[1], <),
                                    deadrx |-> Cardinality({i \in DOMAIN d[1] : tst[d[1][i]] = "dead"})])
                ELSE g3 IN
      /\ reg' = d[1] /\ ring' = d[3] /\ active' = pr[1] /\ a' = g4
